@@ -86,7 +86,7 @@ namespace sim
     long file_seed(const std::string &content)
     {
       rapidjson::Document d;
-      d.Parse<rapidjson::kParseCommentsFlag | rapidjson::kParseNanAndInfFlag>(content.c_str(), content.size());
+      d.Parse<rapidjson::kParseCommentsFlag | rapidjson::kParseNanAndInfFlag | rapidjson::kParseIterativeFlag>(content.c_str(), content.size());
       if (d.HasParseError() || !d.IsObject())
         return -2;
       if (d.HasMember("random number seed") && d["random number seed"].IsInt())
@@ -369,6 +369,9 @@ namespace sim
               std::cerr.rdbuf(old_err);
               r.out = out.str();
               r.err = err.str();
+              for (const auto &e : simfs::effects())
+                if (e.mode == 'w' && e.closed)
+                  r.written[e.path] = e.bytes;
               reset_streams();
             }
         }
@@ -566,7 +569,7 @@ namespace sim
       const std::string P = s.property;
       std::map<std::string, std::vector<const OpRef *>> by_file;
       for (const auto &q : queries)
-        if (q.resp->status == 0 || q.resp->status == 1)
+        if ((q.resp->status == 0 || q.resp->status == 1) && !q.op->noref)
           by_file[q.file].push_back(&q);
       for (auto &bf : by_file)
         {
@@ -896,6 +899,43 @@ namespace sim
                         }
                     }
                 }
+              if (a->op->op == "tool" && b->op->op == "tool")
+                {
+                  // same files with the same bytes, same exit code; gwb-dat: same table on stdout
+                  std::string d;
+                  if (a->resp->rc != b->resp->rc)
+                    d = "exit codes " + std::to_string(a->resp->rc) + " vs " + std::to_string(b->resp->rc);
+                  if (a->resp->written.size() != b->resp->written.size())
+                    d = std::to_string(a->resp->written.size()) + " vs " + std::to_string(b->resp->written.size()) + " output files";
+                  for (const auto &f : a->resp->written)
+                    {
+                      auto it = b->resp->written.find(f.first);
+                      if (it == b->resp->written.end())
+                        d = "file " + f.first + " missing";
+                      else if (it->second != f.second)
+                        {
+                          size_t k = 0;
+                          while (k < f.second.size() && k < it->second.size() && f.second[k] == it->second[k])
+                            ++k;
+                          d = "file " + f.first + " differs at byte " + std::to_string(k) + " (sizes " + std::to_string(f.second.size()) + "/" + std::to_string(it->second.size()) + ")";
+                        }
+                    }
+                  if (d.empty() && a->op->tool == "dat" && a->resp->out != b->resp->out)
+                    d = "tables on stdout differ";
+                  if (!d.empty())
+                    {
+                      Violation v;
+                      v.cls = s.property + (a->op->tool == "grid" ? "/grid-bytes" : "/dat-bytes");
+                      std::string argv_a, argv_b;
+                      for (const auto &x : a->op->argv) argv_a += x + " ";
+                      for (const auto &x : b->op->argv) argv_b += x + " ";
+                      v.detail = "runs [" + argv_a + "] and [" + argv_b + "] of the same input: " + d;
+                      v.site = a->op->tool;
+                      v.op_index = b->index;
+                      res.violations.push_back(v);
+                    }
+                  continue;
+                }
               bool same = a->resp->v.size() == b->resp->v.size();
               size_t bad = 0;
               if (same)
@@ -1100,6 +1140,8 @@ namespace sim
         res.counters[std::string("op_") + op.op]++;
         if (r.status == 3)
           res.counters["ops_skipped"]++;
+        else
+          res.counters["outcome_checks"]++; // returned, or threw a std::exception with a message (checked below)
         if (r.status == 1)
           res.counters["ops_threw"]++;
         res.tsan_reports += (q.thread < 0 ? r.tsan_reports : 0);
